@@ -2,7 +2,7 @@
 # re-confirm and re-evaluate every seeded change with the check of the property it breaks; rebuild INDEX.md
 cd /verif
 for D in seeded/C*/; do
-  N=$(basename $D); P=${N%%-*}
+  N=$(basename $D); P=${N:0:3}
   selftest/seed_eval.sh $N /verif/seeded/$N $P > /dev/null 2>&1
   echo "$N: $(grep -E '^check' seeded/$N/confirm.txt | tr '\n' ' ')"
 done
